@@ -246,6 +246,7 @@ func (fr *frame) newObj(st *state, v ssa.Value, tyid int) string {
 	c := fr.vc.c
 	n := fr.name(v)
 	c.declConst(n, "Ref")
+	c.objNames[n] = true
 	c.assume(fmt.Sprintf("(= %s (obj %s))", n, st.alloc))
 	if tyid != 0 {
 		fr.vc.assumeG(fmt.Sprintf("(= (tyof %s) %d)", n, tyid))
@@ -307,8 +308,7 @@ func (fr *frame) assumeZeroAt(st *state, a string, t types.Type, alloc *ssa.Allo
 		if alloc != nil && fr.inits.covered(alloc, path) {
 			return
 		}
-		k := c.cellKey(t)
-		fr.vc.assumeG(fmt.Sprintf("(= (select %s %s) %s)", c.heapGet(st, k), addr, c.zero(t)))
+		fr.vc.assumeG(fmt.Sprintf("(= %s %s)", c.loadAt(st, addr, t), c.zero(t)))
 	}
 	rec(t, a, prefix)
 }
@@ -401,8 +401,7 @@ func (fr *frame) doStore(b *ssa.BasicBlock, st *state, x *ssa.Store) {
 		// initialising store: a fact about the current array, no new version
 		v := fr.val(x.Val)
 		for _, lf := range c.leaves(x.Val.Type()) {
-			k := c.cellKey(lf.typ)
-			fr.vc.assumeG(fmt.Sprintf("(= (select %s %s) %s)", c.heapGet(st, k), addrPath(a, lf.fids), applySels(v, lf.sels)))
+			fr.vc.assumeG(fmt.Sprintf("(= %s %s)", c.loadAt(st, addrPath(a, lf.fids), lf.typ), applySels(v, lf.sels)))
 		}
 		return
 	}
@@ -420,16 +419,20 @@ func (fr *frame) doStore(b *ssa.BasicBlock, st *state, x *ssa.Store) {
 		objT = fr.objTerm[root]
 	}
 	var before map[string]string
+	var touched []string
+	for _, lf := range c.leaves(x.Val.Type()) {
+		for _, alt := range c.leafKeys(addrPath(a, lf.fids), lf.typ) {
+			touched = append(touched, alt.key)
+		}
+	}
 	if objT.term != "" {
 		before = map[string]string{}
-		for _, lf := range c.leaves(x.Val.Type()) {
-			k := c.cellKey(lf.typ)
+		for _, k := range touched {
 			before[k] = c.heapGet(st, k)
 		}
 	}
 	c.storeAt(st, a, x.Val.Type(), fr.val(x.Val))
-	for _, lf := range c.leaves(x.Val.Type()) {
-		k := c.cellKey(lf.typ)
+	for _, k := range touched {
 		if objT.term == "" {
 			delete(st.base, k)
 			continue
@@ -611,9 +614,9 @@ func (fr *frame) doSlice(b *ssa.BasicBlock, st *state, x *ssa.Slice) {
 func (fr *frame) zeroRegion(st *state, el types.Type, r string) {
 	c := fr.vc.c
 	for _, lf := range c.leaves(el) {
-		k := c.cellKey(lf.typ)
-		H := c.heapGet(st, k)
 		p := addrPath(fmt.Sprintf("(selem %s zr!i)", r), lf.fids)
+		k := c.leafKeys(p, lf.typ)[0].key
+		H := c.heapGet(st, k)
 		fr.vc.assumeG(fmt.Sprintf("(forall ((zr!i Int)) (! (= (select %s %s) %s) :pattern ((select %s %s))))", H, p, c.zero(lf.typ), H, p))
 	}
 }
@@ -625,6 +628,7 @@ func (fr *frame) doMakeSlice(b *ssa.BasicBlock, st *state, x *ssa.MakeSlice) {
 	c.fresh++
 	rn := fmt.Sprintf("%s!d%d", fr.name(x), c.fresh)
 	c.declConst(rn, "Ref")
+	c.objNames[rn] = true
 	c.assume(fmt.Sprintf("(= %s (obj %s))", rn, st.alloc))
 	na := c.freshConst("A", "Int")
 	c.assume(fmt.Sprintf("(= %s (+ %s 1))", na, st.alloc))
@@ -643,6 +647,7 @@ func (fr *frame) doAppend(b *ssa.BasicBlock, st *state, x ssa.Value, args []ssa.
 	c.fresh++
 	rn := fmt.Sprintf("%s!d%d", fr.name(x), c.fresh)
 	c.declConst(rn, "Ref")
+	c.objNames[rn] = true
 	c.assume(fmt.Sprintf("(= %s (obj %s))", rn, st.alloc))
 	na := c.freshConst("A", "Int")
 	c.assume(fmt.Sprintf("(= %s (+ %s 1))", na, st.alloc))
@@ -656,9 +661,9 @@ func (fr *frame) doAppend(b *ssa.BasicBlock, st *state, x ssa.Value, args []ssa.
 	fr.objTerm[x] = baseObj{fmt.Sprintf("(oid %s)", rn), el}
 	fr.vc.assumeG(fmt.Sprintf("(= (tyof %s) (- 2000))", rn))
 	for _, lf := range c.leaves(el) {
-		k := c.cellKey(lf.typ)
-		H := c.heapGet(st, k)
 		p1 := addrPath(fmt.Sprintf("(selem %s ap!i)", res), lf.fids)
+		k := c.leafKeys(p1, lf.typ)[0].key
+		H := c.heapGet(st, k)
 		s1 := addrPath(fmt.Sprintf("(selem %s ap!i)", s), lf.fids)
 		fr.vc.assumeG(fmt.Sprintf("(forall ((ap!i Int)) (! (=> (and (<= 0 ap!i) (< ap!i (slen %s))) (= (select %s %s) (select %s %s))) :pattern ((select %s %s))))", s, H, p1, H, s1, H, p1))
 		p2 := addrPath(fmt.Sprintf("(selem %s (+ (slen %s) ap!i))", res, s), lf.fids)
